@@ -77,3 +77,69 @@ Proof. rewrite firstnN_spec, skipnN_spec. apply firstn_skipn. Qed.
 
 Lemma lenN_nil_iff l : lenN l = 0%N <-> l = [].
 Proof. rewrite lenN_spec. destruct l; simpl; split; intros; try congruence; lia. Qed.
+
+(* ---- varint: the minimal encoding parses back, and every proper prefix is "truncated" *)
+
+Local Open Scope N_scope.
+
+Lemma pv_ev k : forall i v acc r, (i + k = 9)%nat -> v < 2 ^ (7 * N.of_nat k + 1) ->
+  pv k i (ev k v ++ r) acc = VOk (acc + v * 2 ^ (7 * N.of_nat i)) (i + length (ev k v)).
+Proof.
+  induction k as [|k IH]; intros i v acc r Hi Hv.
+  - simpl in *. assert (i = 9)%nat by lia. subst i.
+    change (2 ^ (7 * 0 + 1)) with 2 in Hv.
+    rewrite N.mod_small by lia.
+    destruct (N.ltb_spec v 128); [|lia]. simpl Nat.eqb.
+    destruct (N.leb_spec 2 v); [lia|]. simpl. reflexivity.
+  - simpl ev. destruct (N.ltb_spec v 128) as [Hs|Hs].
+    + simpl. destruct (N.ltb_spec v 128); [|lia].
+      replace (Nat.eqb i 9) with false by (symmetry; apply Nat.eqb_neq; lia). simpl.
+      f_equal. lia.
+    + simpl app. simpl pv.
+      assert (Hm : v mod 128 < 128) by (apply N.mod_lt; lia).
+      destruct (N.ltb_spec (v mod 128 + 128) 128); [lia|].
+      rewrite IH; [| lia |].
+      * f_equal; [|simpl; lia].
+        replace (v mod 128 + 128 - 128) with (v mod 128) by lia.
+        replace (7 * N.of_nat (S i)) with (7 * N.of_nat i + 7) by lia.
+        rewrite N.pow_add_r. change (2 ^ 7) with 128.
+        rewrite (N.div_mod v 128) at 3 by lia. lia.
+      * replace (7 * N.of_nat (S k) + 1) with (7 + (7 * N.of_nat k + 1)) in Hv by lia.
+        rewrite N.pow_add_r in Hv. change (2 ^ 7) with 128 in Hv.
+        apply N.div_lt_upper_bound; lia.
+Qed.
+
+Lemma pv_ev_cut k : forall i v acc j, (j < length (ev k v))%nat ->
+  pv k i (firstn j (ev k v)) acc = VErr VTrunc.
+Proof.
+  induction k as [|k IH]; intros i v acc j Hj.
+  - simpl in *. assert (j = 0)%nat by lia. subst j. reflexivity.
+  - simpl ev in *. destruct (N.ltb_spec v 128) as [Hs|Hs].
+    + simpl in Hj. assert (j = 0)%nat by lia. subst j. reflexivity.
+    + destruct j as [|j]; [reflexivity|].
+      simpl firstn. simpl pv.
+      assert (Hm : v mod 128 < 128) by (apply N.mod_lt; lia).
+      destruct (N.ltb_spec (v mod 128 + 128) 128); [lia|].
+      apply IH. simpl in Hj. lia.
+Qed.
+
+Lemma ev_length k v : (1 <= length (ev k v) <= S k)%nat.
+Proof.
+  revert v. induction k as [|k IH]; intros v; simpl.
+  - lia.
+  - destruct (v <? 128); simpl; [lia|]. specialize (IH (v / 128)). lia.
+Qed.
+
+Theorem enc_varint_parses v r : v < 2 ^ 64 ->
+  parse_varint (enc_varint v ++ r) = VOk v (length (enc_varint v)).
+Proof.
+  intros Hv. unfold parse_varint, enc_varint. rewrite pv_ev; [|lia|exact Hv].
+  f_equal. simpl. lia.
+Qed.
+
+Theorem enc_varint_cut v k : (k < length (enc_varint v))%nat ->
+  parse_varint (firstn k (enc_varint v)) = VErr VTrunc.
+Proof. apply pv_ev_cut. Qed.
+
+Theorem enc_varint_len v : (length (enc_varint v) <= 10)%nat.
+Proof. unfold enc_varint. pose proof (ev_length 9 v). lia. Qed.
